@@ -280,7 +280,7 @@ class Unit:
                  rec=False, flags=(), backends=("minisat",), canaries=(), bounded=None,
                  unwind=None, timeout=600, native=None, mode="c", tiers=("quick", "thorough"),
                  defines=None, trusted=(), assumptions=(), claim="", havoc_loops=False,
-                 expect_fail=(), object_bits=None, split=False, pre_inputs="", checks=None, ignore=None, fallback_unwind=None, allow_nobody=r"^(nondet_|__CPROVER|floor$|sqrt$|fmax$|fmin$|fabs$)", nondet_static=False, extra_files=()):
+                 expect_fail=(), object_bits=None, split=False, pre_inputs="", checks=None, ignore=None, unwinding_assertions=True, fallback_unwind=None, allow_nobody=r"^(nondet_|__CPROVER|floor$|sqrt$|fmax$|fmin$|fabs$)", nondet_static=False, extra_files=()):
         self.__dict__.update(locals())
         del self.__dict__["self"]
 
@@ -484,7 +484,7 @@ def build_and_check(unit, tier, workdir, mutate=None, want_trace=True, tag="main
             raise Undecided("loop structure of %s changed and the unit has no bounded fallback" % degraded[0]["name"])
         unwind = unit.fallback_unwind
     if unwind:
-        base += ["--unwind", str(unwind), "--unwinding-assertions"]
+        base += ["--unwind", str(unwind)] + (["--unwinding-assertions"] if unit.unwinding_assertions else [])
     if unit.object_bits:
         base += ["--object-bits", str(unit.object_bits)]
     if unit.nondet_static:
